@@ -22,7 +22,8 @@ ASSUMPTIONS = {
         "assumed contract: AlnWriter::new (iter().map().sum() rejected by Verus): fields as in its struct literal and seq_out == '-' x total length; lemma_initial_wf proves that state satisfies the invariant",
         "caller obligations not discharged (unverified glue RefSka::map / pseudoalignment): write_split_kmer is called in reference order, each contig position h <= pos < len-h, on contigs in non-decreasing order; finalise is called once after the last call; repeat_regions < total length",
         "caller obligation: the stored reference is upper case (RefSka::new, `to_ascii_uppercase` after the fix commit) - precondition ref_upper of the upper-case clause",
-        "external/trusted: track_repeats (hashbrown sets): `repeats` == split k-mers seen at least twice; split_kmer_pos sorted by (contig, position) with h <= pos < len-h (follows from the C01 contracts of SplitKmer, composed in unverified glue)",
+        "external/trusted: track_repeats (hashbrown sets): `repeats` == split k-mers seen at least twice",
+        "split_kmer_pos sorted by position within a record with h <= pos, pos + h < len is PROVED for RefSka::new's collection loop (fragment RefSka::new.collect_record, from the SplitKmer contracts); that `chrom` increases by one per record, and that RefSka::map keeps the list order when it selects the mapped k-mers, is unverified glue",
         "R3: hashbrown::HashSet re-bound to std::collections::HashSet (vstd-specified) in the repeat fragment",
         "strand correction RC_IUPAC is enumerated by Kani; its application inside RefSka::map (iterator chain over a hashbrown map) is unverified glue",
     ],
